@@ -4,6 +4,7 @@ import (
 	"encoding/hex"
 	"fmt"
 
+	"github.com/nspcc-dev/neo-go/pkg/core/mempool"
 	"github.com/nspcc-dev/neo-go/pkg/core/transaction"
 	"github.com/nspcc-dev/neo-go/pkg/util"
 
@@ -93,6 +94,9 @@ func (rn *runner) runCase(shapeName string, c *sCase) {
 		e.count.sound.Inc()
 		e.out("sound", c.Rule+"->"+v.Class)
 		e.r.Outcome("sound:" + wantStr(c.Want) + "->" + v.Class)
+		if c.Rule == "valid" && (rn.st.Sc != nil || rn.st.Only != nil || rn.st.Expect != nil) {
+			e.out("sound-new-states", rn.st.Name+"/"+shapeName+"->"+v.Class)
+		}
 		if v.Class == "PANIC" {
 			e.f.add(fmt.Sprintf("sound:panic:%s:%s:%s:%s", c.Rule, shapeName, rn.st.Name, path), rec(path, v))
 			continue
@@ -124,6 +128,9 @@ func (rn *runner) runCase(shapeName string, c *sCase) {
 			e.f.add(fmt.Sprintf("sound:%s:%s:%s:%s", c.Rule, shapeName, rn.st.Name, "verifytx"), rec("verifytx", v))
 		}
 	}
+	if res[pathFromBytes].Dec && len(c.Pre) == 0 {
+		rn.partialPath(shapeName, c, rec)
+	}
 	if c.Want && c.NoDemand == "" && len(c.Pre) == 0 && res[pathFromBytes].OK {
 		rn.endToEnd(shapeName, c)
 	}
@@ -135,6 +142,56 @@ func (rn *runner) runCase(shapeName string, c *sCase) {
 	if !c.NoEnc {
 		base := caseRec{Sub: "encoding", State: rn.st.Name, Rule: c.Rule, Shape: shapeName, Pre: hexs(c.Pre)}
 		rn.encodings(base, canon, res, true)
+	}
+}
+
+// partialPath submits the case through PoolTxWithData (the entry of the
+// notary request pool) into a pool of its own. The same predicate applies with
+// the relaxations the code documents for partially filled transactions: no
+// upper bound on ValidUntilBlock, NotValidBefore within MaxNotValidBeforeDelta,
+// the first witness may be a dummy (not judged).
+func (rn *runner) partialPath(shapeName string, c *sCase, rec func(string, verdict) *caseRec) {
+	e := rn.e
+	f := *rn.facts
+	f.Partial = true
+	d, err := rn.n.BC.GetMaxNotValidBeforeDelta()
+	if err != nil {
+		return
+	}
+	f.MaxNVBDelta = d
+	pc := *c
+	pc.NoDemand = ""
+	pc.Want, pc.Why = valid(&f, &pc)
+	v := func() (v verdict) {
+		defer func() {
+			if p := recover(); p != nil {
+				v = verdict{Class: "PANIC", Err: fmt.Sprint(p)}
+			}
+		}()
+		tx, err := transaction.NewTransactionFromBytes(c.Tx.Bytes())
+		if err != nil {
+			return verdict{Class: "decode", Err: err.Error()}
+		}
+		if err := rn.n.BC.PoolTxWithData(tx, struct{}{}, mempool.New(4, false, nil), rn.n.BC, nil); err != nil {
+			return verdict{Class: errClass(err), Err: err.Error(), Dec: true}
+		}
+		return verdict{OK: true, Class: "ok", Dec: true}
+	}()
+	e.count.sound.Inc()
+	e.count.partial.Inc()
+	if pc.NoDemand != "" {
+		e.out("pooltxwithdata", "no-demand:"+c.Rule+"->"+v.Class)
+		return
+	}
+	if pc.Want != c.Want {
+		e.out("pooltxwithdata", "relaxed:"+c.Rule+"->"+v.Class)
+	} else {
+		e.out("pooltxwithdata", wantStr(pc.Want)+"->"+v.Class)
+	}
+	if v.OK != pc.Want || v.Class == "PANIC" {
+		r := rec("pooltxwithdata", v)
+		r.Want, r.Why = wantStr(pc.Want), pc.Why
+		e.f.add(fmt.Sprintf("sound:%s:%s:%s:%s", c.Rule, shapeName, rn.st.Name, "pooltxwithdata"), r)
 	}
 }
 
